@@ -425,6 +425,7 @@ func checkConv(p *Prog, r *Report, pkg, prop string) {
 	ruleCaseFolding(p, r, "R-FOLD", prop, map[string]bool{pkg: true})
 	ruleConstantFormats(p, r, "R-FMT")
 	ruleMapsCopy(p, r, "R-MC")
+	ruleElemStoreDiscipline(p, r, "R-ES", map[string]bool{pkg: true})
 	ruleNoClockInComputation(p, r, "R-CLK")
 	ruleRegexpConsts(p, r, "R-RX", prop, 1)
 	if pkg == "panos" || pkg == "nsx" {
